@@ -451,6 +451,9 @@ class Interp:
                 return self.call_closure(f, [self.ev(a, env) for a in n["args"]])
             if isinstance(f, tuple) and f and f[0] == "fnpath":
                 return self.call_path(f[1], [self.ev(a, env) for a in n["args"]])
+            f = deref(f)
+            if callable(f):                # an abstract function value supplied by the rule (e.g. an effect counter)
+                return f(*[self.ev(a, env) for a in n["args"]])
             raise Unsupported("call of a non-closure value")
         if k == "array":
             return VecV([self.ev(x, env) for x in n["elems"]])
